@@ -10,7 +10,7 @@ import (
 
 // C15_decompress_frame: DecompressFrame with any frame header and a misbehaving decompressor.
 func C15_decompress_frame() {
-	how := vChoose("how", 3)
+	how := vChoose("how", 4)
 	h := Helper{Decompressor: func(r io.Reader) Decompressor { return &vBadDecomp{r: r, how: how} }}
 	f := ws.Frame{Header: vHdr(), Payload: vBytes("p", vChoose("n", 4))}
 	h.DecompressFrame(f)
